@@ -686,3 +686,42 @@ def _phantom_placement(repo, ob, failure):
         if abs(got.get("x", 1e9) - x) > 0.002 or abs(got.get("y", 1e9) - y) > 0.002:
             return {"input": doc, "observed": "the sibling placed beside it lands at %r" % got, "expected": "x=%g y=%g" % (x, y)}
     return None
+
+
+NS = 'xmlns="http://www.w3.org/2000/svg"'
+
+
+def _root_and_embedded(repo, ob, failure):
+    """an svgdx document (outermost <svg> without the namespace) which embeds a namespaced <svg>
+    subtree anywhere: the output root must be synthesised (namespace + version), everything outside
+    the embedded subtree must be expanded exactly as without it, and a second pass changes nothing"""
+    import re as _re
+    inner = '<svg %s><rect width="3" height="3"/></svg>' % NS
+    docs = ['<svg><if test="1">%s</if><rect wh="5"/></svg>' % inner,
+            '<svg>%s<rect wh="5"/></svg>' % inner,
+            '<svg><rect wh="5"/>%s</svg>' % inner,
+            '<svg><loop count="1">%s</loop><rect wh="5"/></svg>' % inner,
+            '<svg><g>%s</g><rect wh="5"/></svg>' % inner,
+            '<svg><g>%s<rect wh="5"/></g></svg>' % inner,
+            '<svg><specs><g id="t">%s</g></specs><reuse href="#t"/><rect wh="5"/></svg>' % inner,
+            '<svg>%s</svg>' % inner]
+    for doc in docs:
+        r = run_svgdx(repo, doc)
+        if r["rc"] != 0:
+            continue
+        m = _re.search(r"<svg\b([^>]*)>", r["out"])
+        root = m.group(1) if m else ""
+        if NS not in root or "version=" not in root:
+            return {"input": doc, "observed": "output root is <svg%s>" % root, "expected": "a synthesised root <svg> declaring the SVG namespace and a version"}
+        if "wh=" in r["out"] or ('<rect wh="5"/>' in doc and not _re.search(r'<rect width="5" height="5"', r["out"])):
+            return {"input": doc, "observed": "shorthand left unexpanded next to the embedded <svg>: " + r["out"][-160:], "expected": '<rect width="5" height="5"/> as without the embedded subtree'}
+        if inner not in r["out"]:
+            return {"input": doc, "observed": "embedded namespaced <svg> not emitted verbatim: " + r["out"][-200:], "expected": inner}
+        r2 = run_svgdx(repo, r["out"])
+        if r2["rc"] != 0 or r2["out"] != r["out"]:
+            return {"input": doc, "observed": "second pass differs (rc=%s)" % r2["rc"], "expected": "byte-identical output on re-processing"}
+    return None
+
+
+for _p in ("C02.root.", "C02.detect", "C03.document.", "C03.events.nested", "C03.events.frame", "C03.detect", "C05.root.", "C05.detect", "C11.detect", "C10.detect"):
+    GENERATORS.insert(0, (_p, _root_and_embedded))
